@@ -228,6 +228,71 @@ type pool struct {
 	vs    []*vg.V
 	gos   []value.Value // when set: the implementation values, built once (their payloads may share memory)
 	alias *aliasSpec
+	hseed []uint64 // when set: gos[i] was built from vs[i] through the mutation history of this seed (0 = plainly)
+}
+
+// suffix of the failure keys of a pool whose implementation values are prebuilt
+func (p *pool) route() string {
+	if p.hseed != nil {
+		return "after-history"
+	}
+	return "aliased-payload"
+}
+
+func (p *pool) replayExtra(idx []int) map[string]interface{} {
+	if p.hseed != nil {
+		return map[string]interface{}{"history_seeds": p.hseed, "indices": idx}
+	}
+	return map[string]interface{}{"alias": p.alias, "indices": idx}
+}
+
+// buildHistoryPool builds gos from vs and the seeds
+func buildHistoryPool(vs []*vg.V, seeds []uint64) pool {
+	pl := pool{how: "history", vs: vs, hseed: seeds}
+	for i, v := range vs {
+		var g value.Value
+		o := vh.Guard(func() {
+			if seeds[i] == 0 {
+				g = v.ToGo()
+			} else {
+				g = v.ToGoH(vh.NewRng(seeds[i]))
+			}
+		})
+		if !o.OK() {
+			g = value.NewNullValue()
+		}
+		pl.gos = append(pl.gos, g)
+	}
+	return pl
+}
+
+// historyPools: containers built through mutation histories (vg.ToGoH: junk + Clear rounds,
+// placeholder + Set / overwrite, PutAll, NewList …) next to plainly built twins and mutants
+func historyPools(r *vh.Rng, thorough bool) []pool {
+	n := 250
+	if thorough {
+		n = 3000
+	}
+	gen := vg.New(r.Fork(), vg.Opt{Depth: 3, Width: 4, NaNPct: 2, Nil: true})
+	var out []pool
+	for i := 0; i < n; i++ {
+		var base *vg.V
+		if r.Chance(50) {
+			base = smallContainer(gen, []string{"l", "l", "m", "im"}[r.Intn(4)], 3)
+		} else {
+			base = gen.Container([]string{"l", "l", "m", "im"}[r.Intn(4)], 3)
+		}
+		mut := mutate(gen, base)
+		vs := []*vg.V{base, base, base, mut, mut}
+		seeds := []uint64{0, r.U64() | 1, r.U64() | 1, 0, r.U64() | 1}
+		if r.Chance(40) {
+			other := smallContainer(gen, base.K, 2)
+			vs = append(vs, other, other)
+			seeds = append(seeds, 0, r.U64()|1)
+		}
+		out = append(out, buildHistoryPool(vs, seeds))
+	}
+	return out
 }
 
 // aliasSpec describes a pool whose payloads are windows of ONE backing array (and independent
@@ -585,7 +650,7 @@ func main() {
 	env, rep := vh.Parse("C20")
 	rng := vh.NewRng(env.Seed)
 	rep.Rule = "a case is one ordered pair (a,b) inside a pool of 4-8 related values (same type / mixed types / mutants of one tree: " +
-		"reordered or replaced map keys, changed leaves, nil vs empty payloads, NaNs / a value and its decoding / one value of every type built from the same content (all ordered type pairs) / payloads that are windows of one shared backing array with their independent copies); laws are evaluated on all pairs and triples of a pool; " +
+		"reordered or replaced map keys, changed leaves, nil vs empty payloads, NaNs / a value and its decoding / one value of every type built from the same content (all ordered type pairs) / payloads that are windows of one shared backing array with their independent copies / containers built through mutation histories next to plainly built twins); laws are evaluated on all pairs and triples of a pool; " +
 		"non-trivial = a and b are not both null; distinct by the two one-line forms"
 
 	var pools []pool
@@ -599,6 +664,7 @@ func main() {
 			Cases []struct {
 				Values []string   `json:"values"`
 				Alias  *aliasSpec `json:"alias"`
+				HSeeds []uint64   `json:"history_seeds"`
 			} `json:"cases"`
 		}
 		if err := json.Unmarshal(b, &rf); err != nil {
@@ -617,7 +683,9 @@ func main() {
 				}
 				p.vs = append(p.vs, v)
 			}
-			if len(p.vs) > 0 {
+			if len(p.vs) > 0 && len(rc.HSeeds) == len(p.vs) {
+				pools = append(pools, buildHistoryPool(p.vs, rc.HSeeds))
+			} else if len(p.vs) > 0 {
 				pools = append(pools, p)
 			}
 		}
@@ -688,6 +756,7 @@ func main() {
 		}
 		pools = append(pools, crossTypePools()...)
 		pools = append(pools, aliasPools(rng.Fork(), env.Thorough)...)
+		pools = append(pools, historyPools(rng.Fork(), env.Thorough)...)
 	}
 
 	// ---- model
@@ -836,9 +905,15 @@ func main() {
 					meth = strings.Split(detail, "+")[0]
 					law = "panic"
 				}
-				failOnce("property", typeOf(vals[0])+"."+meth+":"+law+"-aliased-payload",
-					detail+" (payloads are windows of one backing array / independent copies)", vals,
-					map[string]interface{}{"alias": p.alias, "indices": idx})
+				note := " (payloads are windows of one backing array / independent copies)"
+				if p.hseed != nil {
+					note = " (values built through Put / Set / Clear / PutAll histories next to plainly built twins)"
+				}
+				vv := vals
+				if p.hseed != nil {
+					vv = p.vs // the replay needs the whole pool to match the seeds
+				}
+				failOnce("property", typeOf(vals[0])+"."+meth+":"+law+"-"+p.route(), detail+note, vv, p.replayExtra(idx))
 				return
 			}
 			a, b := vals[0], vals[len(vals)-1]
@@ -933,6 +1008,12 @@ func main() {
 					continue
 				}
 				a, b := p.vs[i], p.vs[j]
+				if i != j && p.hseed != nil && p.vs[i] == p.vs[j] {
+					// the same content reached by two construction routes
+					if meq, mc := mcell(i, j); meq && mc == 0 && (!impl[i][j].eq || impl[i][j].cmp != 0) {
+						lawFail("eq-same-content", []int{i, j}, true, fmt.Sprintf("two values with identical content are not Equal / do not compare 0 (Equals %v, CompareTo sign %d)", impl[i][j].eq, impl[i][j].cmp))
+					}
+				}
 				if i < j && impl[i][j].eq != impl[j][i].eq {
 					lawFail("eq-symm", []int{i, j}, false, "Equals is not symmetric")
 				}
@@ -976,13 +1057,17 @@ func main() {
 						}
 						var extra map[string]interface{}
 						key := typeOf(p.vs[i]) + "." + meth + ":differs-from-model"
+						vv := []*vg.V{p.vs[i], p.vs[j]}
 						if p.gos != nil {
-							extra = map[string]interface{}{"alias": p.alias, "indices": []int{i, j}}
-							key += "-aliased-payload"
+							extra = p.replayExtra([]int{i, j})
+							key += "-" + p.route()
+							if p.hseed != nil {
+								vv = p.vs
+							}
 						}
 						failOnce("correspondence", key,
 							"implementation "+impl[i][j].String()+", model "+model[i][j]+"; all laws hold on this pool of the implementation",
-							[]*vg.V{p.vs[i], p.vs[j]}, extra)
+							vv, extra)
 					}
 				}
 			}
